@@ -268,6 +268,11 @@ func init() {
 		return (*ptr(args[0])).(structure)[0].(string)
 	})
 
+	// ---- go-kit log: levels are the identity, Log is a no-op
+	for _, n := range []string{"Error", "Debug", "Info", "Warn"} {
+		reg("github.com/go-kit/log/level."+n, func(fr *frame, args []value) value { return args[0] })
+	}
+
 	// ---- fmt
 	reg("fmt.Sprintf", func(fr *frame, args []value) value {
 		return fr.sprintf(str(args[0]), args[1].([]value))
